@@ -107,8 +107,18 @@ class Lib:
             e = z3.If(kind == k, sdir(z3.IntVal(k), T.l_k1(loc)), e)
         return z3.simplify(e)
 
+    def as_path(self, it, p):
+        """The store path string of a constructor call denotes the root directory."""
+        sp = it.ctx.__dict__.get("store_path_term")
+        if sp is not None and isinstance(p, (VStr, VDyn)):
+            t = p.term if isinstance(p, VStr) else p.s
+            if t.eq(sp) and (isinstance(p, VStr) or it.ctx.implied(p.tag == T_STR)):
+                return VPath(A_ROOT, (), pathobj=False)
+        return p
+
     def path_loc(self, it, p, what="file"):
         """Map a path value to the abstract location it denotes (contract of the path algebra)."""
+        p = self.as_path(it, p)
         if isinstance(p, VObj) and p.cls == "file":
             raise Undecided("file object used as path")
         if isinstance(p, (VStr, VDyn)):
@@ -174,6 +184,7 @@ class Lib:
 
     def path_dir(self, it, p):
         """Directory id (z3 String) of a path value that denotes a directory."""
+        p = self.as_path(it, p)
         if not isinstance(p, VPath):
             raise Undecided(f"not a directory path: {p}")
         a, parts = p.anchor, p.parts
@@ -192,6 +203,8 @@ class Lib:
 
     def is_dir_path(self, p):
         if not isinstance(p, VPath):
+            return False
+        if p.marks:
             return False
         kinds = [x[0] for x in p.parts]
         if not p.parts:
